@@ -556,7 +556,7 @@ SPACES = {"hist": Space()}
 
 
 def bfs(tier, ctx):
-    ctx.bfs("hist", bounds(tier)["bfs_depth"], time_cap=70 if tier == "quick" else 2400)
+    ctx.bfs("hist", bounds(tier)["bfs_depth"], time_cap=300 if tier == "quick" else 2400)
 
 
 # ------------------------------------------------------------------------------------------
